@@ -1,6 +1,7 @@
 import PycModel.Generator
 import PycModel.Properties.Tables
 import PycModel.Properties.TablesGen
+import PycModel.Proofs.GenParen
 /-!
 # C07 — generated C re-parses to the same AST
 
@@ -9,5 +10,32 @@ of both is the code's.  Generator model: `Generator.lean`.
 -/
 namespace PycModel.C07
 open PycModel
+
+
+/-! ## the binary-operator layer of the round trip, for trees of any shape -/
+open PycModel.Climb PycModel.ClimbSim PycModel.GenParen
+
+/-- **What `visit_BinaryOp` prints is parsed back to the same tree.** For every tree of binary
+operators (any shape and depth; operands arbitrary), with and without `reduce_parentheses`: the
+tokens the generator's parenthesisation rule emits - a wrapped operand being one operand for the
+parser - are grouped by the precedence-climbing algorithm (which `C02` proves the parser model
+runs) into a tree whose AST is the original one.  The level table is the parser's `binPrec`;
+`TablesG.impl_gen_prec_is_parser_prec` ties the generator's `precedence_map` to it. -/
+theorem binary_parenthesisation_sufficient (rp : Bool) (t : BT) (h : AllOps binPrec t)
+    (k : List PT) (hk : StopAt binPrec 0 k) :
+    ∃ f0, ∀ f, f0 ≤ f →
+      ∃ t', climb binPrec f 0 none ((genP binPrec rp t).toks ++ k) = some (t', k) ∧ toVal t' = toVal t :=
+  generated_reparses binPrec rp t h k hk
+
+/-- non-vacuity and necessity: `a - (b - c)` keeps its parentheses (the right operand of equal
+level is wrapped), `(a - b) - c` loses them under `reduce_parentheses` and keeps them without -/
+example (a b c : Val) :
+    genP binPrec true (.node "MINUS" "-" (.leaf a) (.node "MINUS" "-" (.leaf b) (.leaf c)))
+      = .node "MINUS" "-" (.leaf a) (.leaf (toVal (.node "MINUS" "-" (.leaf b) (.leaf c)))) ∧
+    genP binPrec true (.node "MINUS" "-" (.node "MINUS" "-" (.leaf a) (.leaf b)) (.leaf c))
+      = .node "MINUS" "-" (.node "MINUS" "-" (.leaf a) (.leaf b)) (.leaf c) ∧
+    genP binPrec false (.node "MINUS" "-" (.node "MINUS" "-" (.leaf a) (.leaf b)) (.leaf c))
+      = .node "MINUS" "-" (.leaf (toVal (.node "MINUS" "-" (.leaf a) (.leaf b)))) (.leaf c) := by
+  refine ⟨?_, ?_, ?_⟩ <;> simp [genP, bareL, bareR, binPrec, binaryPrecedence, toVal]
 
 end PycModel.C07
